@@ -412,11 +412,14 @@ where
         }
 
         let outgoing_item = match frame {
-            LinkFrame::Attach(attach) => self
-                .session
-                .on_outgoing_attach(attach)
-                .map(SessionOutgoingItem::SingleFrame)
-                .map(Some)?,
+            LinkFrame::Attach(attach) => {
+                let handle = crate::endpoint::OutputHandle::from(attach.handle.clone());
+                let mut frames = vec![self.session.on_outgoing_attach(attach)?];
+                for flow in self.session.take_flows_owed_after_attach(&handle) {
+                    frames.push(self.session.on_outgoing_flow(flow)?);
+                }
+                Some(SessionOutgoingItem::MultipleFrames(frames))
+            }
             LinkFrame::Flow(flow) => self
                 .session
                 .on_outgoing_flow(flow)
